@@ -48,6 +48,12 @@ class FF:
             fn = ast.unparse(n.func)
             if fn == "np.sqrt" and len(n.args) == 1 and not n.keywords:
                 return f"(nsqrt N {self.vex(n.args[0], env, idx)})"
+            if fn == "np.where" and len(n.args) == 3 and not n.keywords and isinstance(n.args[0], ast.Compare) \
+                    and len(n.args[0].ops) == 1 and isinstance(n.args[0].ops[0], ast.Lt) \
+                    and ast.unparse(n.args[1]) == "np.zeros(nb_species)":
+                c = n.args[0]
+                return (f"(if nltb N {self.vex(c.left, env, idx)} {self.vex(c.comparators[0], env, idx)} "
+                        f"then (nofZ N 0%Z) else {self.vex(n.args[2], env, idx)})")
             if fn == "delta" and len(n.args) == 2 and not n.keywords and all(isinstance(a, ast.Name) for a in n.args):
                 a, b = (env.get(x.id) for x in n.args)
                 if a and b and a[0] == "nat" and b[0] == "nat":
@@ -199,5 +205,124 @@ class FF:
                 f"  let sum_val := (sum_left N (map (fun j => {term}) (seq 0 nb))) in\n"
                 f"  let pre_mult := {self.vex(pre, env, None)} in\n  (nmul N pre_mult sum_val).\n"]
 
+    def kappa(self):
+        fn = self.t.find("thermal_conductivity")
+        if [a.arg for a in fn.args.args] != ["mixture", "rel_delta_T", "DTterms_yn", "ni_limit"]:
+            self.fail(fn, "signature of thermal_conductivity")
+        st = [s for s in fn.body if not self.t.is_doc(s)]
+        if len(st) != 26:
+            self.fail(fn, f"thermal_conductivity: {len(st)} statements, expected 26")
+        for k, txt in enumerate(self.COMMON + ["n_tot = np.sum(number_densities)", "rho = mixture.calculate_density()",
+                                               "hv = mixture.calculate_species_enthalpies()"]):
+            self.expect(st, k, txt)
+        amm = self.assign_to(st[6], "average_molar_mass")
+        hv2 = self.assign_to(st[7], "hv")
+        self.expect(st, 8, "qq = q(mixture)")
+        self.expect(st, 9, "b_vec = np.zeros(4 * nb_species)")
+        rhs = self.assign_to(st[10], "b_vec[nb_species:2 * nb_species]")
+        self.expect(st, 11, "aflat = np.linalg.solve(qq, b_vec)")
+        self.expect(st, 12, "aip = aflat.reshape(4, nb_species)")
+        kd = self.assign_to(st[13], "k_dash")
+        base = {"number_densities": ("vec", "nd"), "masses": ("vec", "masses"), "rho": ("scalar", "rho"), "n_tot": ("scalar", "ntot"),
+                "rel_delta_T": ("scalar", "delta"), "ni_limit": ("scalar", "ni_limit"), "Tval": ("scalar", "T")}
+        # hv (raw species enthalpies h) rescaled
+        env_h = dict(base, hv=("vec", "h"), average_molar_mass=("inline", amm))
+        # k' = <factors> * np.sum(...)
+        env_k = dict(base, aip=("rows", {1: "a1"}))
+        if not (isinstance(kd, ast.BinOp) and isinstance(kd.op, ast.Mult)):
+            self.fail(kd, "k_dash is not a product")
+        # if DTterms_yn: locDTi = DTi(mixture); kdt = np.sum(...)  else: kdt = 0
+        i1 = st[14]
+        if not (isinstance(i1, ast.If) and ast.unparse(i1.test) == "DTterms_yn" and len(i1.body) == 2 and len(i1.orelse) == 1
+                and ast.unparse(i1.body[0]) == "locDTi = DTi(mixture)" and ast.unparse(i1.orelse[0]) == "kdt = 0"):
+            self.fail(i1, "thermal_conductivity: thermal-diffusion branch")
+        kdt = self.assign_to(i1.body[1], "kdt")
+        env_d = dict(base, hv=("vec", "hv"), locDTi=("vec", "DT"), dxdT=("vec", "dxdT"))
+        self.expect(st, 15, "Tval = mixture.T")
+        tr = st[16]
+        if not (isinstance(tr, ast.Try) and not tr.handlers and not tr.orelse and len(tr.body) == 4 and len(tr.finalbody) == 1
+                and ast.unparse(tr.finalbody[0]) == "mixture.T = Tval"
+                and ast.unparse(tr.body[1]) == "n_positive = mixture.calculate_composition()"
+                and ast.unparse(tr.body[3]) == "n_negative = mixture.calculate_composition()"):
+            self.fail(tr, "thermal_conductivity: perturbation block")
+        tpos = self.assign_to(tr.body[0], "mixture.T")
+        tneg = self.assign_to(tr.body[2], "mixture.T")
+        xp = self.assign_to(st[17], "x_positive")
+        xn = self.assign_to(st[18], "x_negative")
+        dx = self.assign_to(st[19], "dxdT")
+        self.expect(st, 20, "locDij = Dij(mixture)")
+        self.expect(st, 21, "krxn_enth = 0.0")
+        lo = st[22]
+        if not (isinstance(lo, ast.For) and ast.unparse(lo.target) == "j" and ast.unparse(lo.iter) == "range(nb_species)" and not lo.orelse
+                and len(lo.body) == 1 and isinstance(lo.body[0], ast.For) and ast.unparse(lo.body[0].target) == "i"
+                and ast.unparse(lo.body[0].iter) == "range(nb_species)" and not lo.body[0].orelse and len(lo.body[0].body) == 1
+                and isinstance(lo.body[0].body[0], ast.AugAssign) and isinstance(lo.body[0].body[0].op, ast.Add)
+                and ast.unparse(lo.body[0].body[0].target) == "krxn_enth"):
+            self.fail(lo, "thermal_conductivity: reaction double loop")
+        term = lo.body[0].body[0].value
+        if not (isinstance(st[23], ast.AugAssign) and isinstance(st[23].op, ast.Mult) and ast.unparse(st[23].target) == "krxn_enth"):
+            self.fail(st[23], "thermal_conductivity: reaction prefactor")
+        i2 = st[24]
+        if not (isinstance(i2, ast.If) and ast.unparse(i2.test) == "DTterms_yn" and len(i2.body) == 2 and len(i2.orelse) == 1
+                and ast.unparse(i2.orelse[0]) == "krxn_therm = 0.0"):
+            self.fail(i2, "thermal_conductivity: second thermal-diffusion branch")
+        filt = self.assign_to(i2.body[0], "dxdTfilt")
+        kth = self.assign_to(i2.body[1], "krxn_therm")
+        self.expect(st, 25, "return k_dash + kdt + krxn_enth + krxn_therm")
+        # sums of the two perturbed compositions: np.sum(n_positive) -> sum over the index
+        nat = {"i": ("nat", "i"), "j": ("nat", "j")}
+        env_x = dict(base, n_positive=("vec", "npos"), n_negative=("vec", "nneg"))
+
+        def frac(e, who):
+            if not (isinstance(e, ast.BinOp) and isinstance(e.op, ast.Div) and isinstance(e.left, ast.Name) and e.left.id == who):
+                self.fail(e, "mole fractions of the perturbed compositions")
+            return f"(ndiv N ({env_x[who][1]} j) {self.sum_of(e.right, env_x, 'i')})"
+        env_dx = dict(base, x_positive=("scalar", frac(xp, "n_positive")), x_negative=("scalar", frac(xn, "n_negative")))
+        env_dx["mixture.T"] = None
+        env_e = dict(base, **nat, hv=("vec", "hv"), dxdT=("vec", "dxdT"), locDij=("mat", "D"))
+        # locDij[i, j]
+        env_e["locDij"] = ("cells", {})
+        term_txt = self.vex_with_matrix(term, env_e)
+        env_t = dict(base, locDTi=("vec", "DT"), dxdT=("vec", "dxdT"), dxdTfilt=("inline", filt))
+        if not (isinstance(kth, ast.BinOp) and isinstance(kth.op, ast.Mult)):
+            self.fail(kth, "krxn_therm is not a product")
+        out = [
+            f"Definition gen_kappa_rhs1 (nd : nat -> A) (i : nat) : A :=\n  {self.vex(rhs, base, 'i')}.\n",
+            f"Definition gen_hv_rescaled (rho ntot : A) (masses h : nat -> A) (i : nat) : A :=\n  {self.vex(hv2, env_h, 'i')}.\n",
+            f"Definition gen_kdash_value (T : A) (masses nd : nat -> A) (nb : nat) (a1 : nat -> A) : A :=\n"
+            f"  (nmul N {self.vex(kd.left, env_k, None)} {self.sum_of(kd.right, env_k, 'i')}).\n",
+            f"Definition gen_kdt_value (T : A) (nb : nat) (hv DT : nat -> A) : A :=\n  {self.sum_of(kdt, env_d, 'i')}.\n",
+            f"Definition gen_kappa_T_pos (T delta : A) : A := {self.vex(tpos, base, None)}.\n",
+            f"Definition gen_kappa_T_neg (T delta : A) : A := {self.vex(tneg, base, None)}.\n",
+            f"Definition gen_dxdT_value (T delta : A) (nb : nat) (npos nneg : nat -> A) (j : nat) : A :=\n  {self.vex(dx, env_dx, None)}.\n",
+            # the running accumulator of the double loop, rendered as a sum over j of sums over i (equal over R)
+            f"Definition gen_krxn_enth_value (rho ntot : A) (masses hv dxdT : nat -> A) (D : nat -> nat -> A) (nb : nat) : A :=\n"
+            f"  (nmul N (sum_left N (map (fun j => (sum_left N (map (fun i => {term_txt}) (seq 0 nb)))) (seq 0 nb))) {self.vex(st[23].value, base, None)}).\n",
+            f"Definition gen_krxn_therm_value (ntot T ni_limit : A) (masses nd DT dxdT : nat -> A) (nb : nat) : A :=\n"
+            f"  (nmul N {self.vex(kth.left, env_t, None)} {self.sum_of(kth.right, env_t, 'i')}).\n",
+            "Definition gen_kappa_total (dt_terms : bool) (rho ntot T ni_limit : A) (masses nd hv DT dxdT : nat -> A) (D : nat -> nat -> A)\n"
+            "           (nb : nat) (kdash : A) : A :=\n"
+            "  let kdt := if dt_terms then gen_kdt_value T nb hv DT else (nofZ N 0%Z) in\n"
+            "  let krxn_enth := gen_krxn_enth_value rho ntot masses hv dxdT D nb in\n"
+            "  let krxn_therm := if dt_terms then gen_krxn_therm_value ntot T ni_limit masses nd DT dxdT nb else (nofZ N 0%Z) in\n"
+            "  (nadd N (nadd N (nadd N kdash kdt) krxn_enth) krxn_therm).\n"]
+        return out
+
+    def vex_with_matrix(self, n, env):
+        """vex for the reaction term: additionally locDij[i, j] -> (D i j)"""
+        outer = self
+
+        class M(ast.NodeTransformer):
+            def visit_Subscript(self, node):
+                if isinstance(node.value, ast.Name) and node.value.id == "locDij" and isinstance(node.slice, ast.Tuple) \
+                        and [ast.unparse(e) for e in node.slice.elts] == ["i", "j"]:
+                    return ast.Name(id="__Dij__", ctx=ast.Load())
+                return self.generic_visit(node)
+        import copy
+        n2 = M().visit(copy.deepcopy(n))
+        env2 = dict(env)
+        env2["__Dij__"] = ("scalar", "(D i j)")
+        return self.vex(n2, env2, None)
+
     def all(self):
-        return self.viscosity() + self.dti() + self.dij() + self.sigma()
+        return self.viscosity() + self.dti() + self.dij() + self.sigma() + self.kappa()
